@@ -2,6 +2,7 @@ import TF.Proofs.PolyMul
 import TF.Proofs.PolySpecNtt
 import TF.Proofs.PolyNttBridge
 import TF.Proofs.PolyNttBridgeX
+import TF.Proofs.GenBridgePoly
 /-!
 # C07 — every polynomial multiplication strategy returns the exact ring product
 
@@ -615,4 +616,108 @@ example : multiplyG TF.xfieldOps TF.bfieldOps TF.xfieldOps (fun x y => xscale y 
 
 end XField
 
+end TF.C07
+
+/-! ## regenerated-from-source bridge (tools/rs2lean_poly.py, `TF/Gen/PolyLoops.lean`) — BT6
+
+`scalar_mul`, `scalar_mul_mut`, `scale`, `shift_coefficients`, the `Mul` operator body, the dispatchers `multiply` and `square`
+and the NTT-based `fast_multiply` are **also regenerated from the text of `polynomial.rs` on every run** (`TF.Gen.Poly.*`: field
+operations as parameters, mixed products `FF × FF2 → Output` as an explicit parameter, callees that are not translated — the
+`fast_*` arms of the dispatchers, `ntt`/`intt` — as parameters; `Option` = may panic).  Proved equal to the hand models of
+`TF/Model/Poly.lean` / `PolyMul.lean` for **every** record of operations, every storage (proofs: `TF/Proofs/GenBridgePoly.lean`).
+`naive_multiply` / `slow_square` (index double loops) are regenerated and evaluated by the driver next to the hand model
+(`GEN-MISMATCH`); their bridge to `mulRows` / `squareRows` needs the additive laws of the coefficient type and is not proved
+here (see tools/props/C07.json). -/
+namespace TF.C07
+open TF TF.Model.Poly
+
+/-- regenerated `scalar_mul` (`iter().map(|&c| c * scalar).collect()`), `scalar_mul_mut` (`for c in &mut v { *c *= s }`) =
+    hand model, any scalar / result type -/
+theorem gen_scalar_mul_eq_model {α σ γ : Type} (F : FieldOps α) (mul : α → σ → γ) (mul' : α → σ → α) (p : List α) (s : σ) :
+    TF.Gen.Poly.scalar_mul F mul p s = scalarMulG mul p s ∧ TF.Gen.Poly.scalar_mul_mut F mul' p s = scalarMulG mul' p s :=
+  ⟨rfl, rfl⟩
+example : TF.Gen.Poly.scalar_mul bfieldOps bfieldOps.mul [1, 2, 3] 2 = [2, 4, 6] := by decide
+
+/-- regenerated `scale` (the `push` loop carrying `power_of_alpha`) = hand model, any scalar type with its own `one`/`mul` -/
+theorem gen_scale_eq_model {α σ γ : Type} (F : FieldOps α) (oneS : σ) (mulS : σ → σ → σ) (mul : α → σ → γ)
+    (p : List α) (alpha : σ) : TF.Gen.Poly.scale F oneS mulS mul p alpha = scaleG oneS mulS mul p alpha :=
+  TF.GenBridge.Poly.scale_eq F oneS mulS mul p alpha
+example : TF.Gen.Poly.scale bfieldOps 1 bfieldOps.mul bfieldOps.mul [1, 0, 3] 2 = [1, 0, 12] := by decide
+
+/-- regenerated `shift_coefficients` (`splice(0..0, vec![ZERO; power])`) = hand model -/
+theorem gen_shift_eq_model {α : Type} (F : FieldOps α) (p : List α) (n : Nat) :
+    TF.Gen.Poly.shift_coefficients F p n = shiftCoefficients F p n := rfl
+example : TF.Gen.Poly.shift_coefficients bfieldOps [1, 2] 2 = [0, 0, 1, 2] := by decide
+
+/-- the regenerated `Mul` operator body is the regenerated `naive_multiply` -/
+theorem gen_mul_is_naive_multiply {α β γ : Type} (F : FieldOps α) (F2 : FieldOps β) (F3 : FieldOps γ) (mul : α → β → γ)
+    (a : List α) (b : List β) :
+    TF.Gen.Poly.mul F F2 F3 mul a b = TF.Gen.Poly.naive_multiply F F2 F3 mul a b :=
+  TF.GenBridge.Poly.mul_eq_naive F F2 F3 mul a b
+example : TF.Gen.Poly.mul bfieldOps bfieldOps bfieldOps bfieldOps.mul [1, 2, 0] [3, 1] = some [3, 7, 2] := by decide
+
+/-- regenerated dispatcher `multiply`: `naive_multiply` iff `deg a + deg b <` the regenerated threshold (an `isize`
+    comparison; `-1` for zero operands), else the `fast_multiply` parameter — for every storage -/
+theorem gen_multiply_dispatch {α β γ : Type} (F : FieldOps α) (F2 : FieldOps β) (F3 : FieldOps γ) (mul : α → β → γ)
+    (fm : List α → List β → Option (List γ)) (a : List α) (b : List β) :
+    TF.Gen.Poly.multiply F F2 F3 mul fm a b =
+      if Model.Poly.degree F a + Model.Poly.degree F2 b < (TF.Gen.FAST_MULTIPLY_CUTOFF_THRESHOLD : Int)
+      then TF.Gen.Poly.naive_multiply F F2 F3 mul a b else fm a b :=
+  TF.GenBridge.Poly.multiply_dispatch F F2 F3 mul fm a b
+example : TF.Gen.Poly.multiply bfieldOps bfieldOps bfieldOps bfieldOps.mul (fun _ _ => none) [1, 2, 0] [3, 1] = some [3, 7, 2] := by
+  decide
+
+/-- regenerated dispatcher `square`: zero first, the `fast_square` parameter iff `2·deg + 1 > 64`, else the same double
+    loop as the regenerated `slow_square` -/
+theorem gen_square_dispatch {α : Type} (F : FieldOps α) (fs : List α → Option (List α)) (p : List α) :
+    TF.Gen.Poly.square F fs p =
+      if Model.Poly.degree F p = -1 then some []
+      else if 2 * (Model.Poly.degree F p).toNat + 1 > 64 then fs p else TF.Gen.Poly.slow_square F p :=
+  TF.GenBridge.Poly.square_dispatch F fs p
+example : TF.Gen.Poly.square bfieldOps (fun _ => none) [1, 1, 0] = some [1, 2, 1] ∧ 64 = TF.Gen.SQUARE_CUTOFF := by decide
+
+/-- regenerated `fast_multiply` (degree sum, `next_power_of_two`, `resize`, `ntt`, Hadamard product, `intt`, `truncate`) on
+    top of arbitrary transforms = hand model `fastMultiplyG`, including every panic of the transforms -/
+theorem gen_fast_multiply_eq_model {α β γ : Type} (F : FieldOps α) (F2 : FieldOps β) (F3 : FieldOps γ) (mul : α → β → γ)
+    (T1 : Transform α) (T2 : Transform β) (T3 : Transform γ) (a : List α) (b : List β) :
+    TF.Gen.Poly.fast_multiply F F2 F3 mul T1.ntt T2.ntt T3.intt a b = fastMultiplyG F F2 mul T1 T2 T3 a b :=
+  TF.GenBridge.Poly.fast_multiply_eq F F2 F3 mul T1 T2 T3 a b
+example : TF.Gen.Poly.fast_multiply bfieldOps bfieldOps bfieldOps bfieldOps.mul (fun _ => none) (fun _ => none) (fun _ => none)
+    [0, 0] [1] = some [] := by decide
+
+/-- regenerated `fast_square` (zero / constant special cases, `resize` of the RAW storage to `next_power_of_two(2·deg + 1)`,
+    `ntt`, pointwise squares, `intt`, `truncate`) on top of arbitrary transforms = hand model `fastSquare` -/
+theorem gen_fast_square_eq_model {α : Type} (F : FieldOps α) (T : Transform α) (p : List α) :
+    TF.Gen.Poly.fast_square F T.ntt T.intt p = fastSquare F T p := TF.GenBridge.Poly.fast_square_eq F T p
+example : TF.Gen.Poly.fast_square bfieldOps (fun _ => none) (fun _ => none) [3, 0, 0] = some [9] := by decide
+
+/-- **`fast_square_spec` for the regenerated code** -/
+theorem gen_fast_square_transfer {K : Type} [Field K] (root : Nat → Option K) {T : Transform K} {pts : Nat → Nat → K}
+    (hT : TransformSpec T pts) (p r : List K)
+    (h : TF.Gen.Poly.fast_square (FieldOps.ofField K root) T.ntt T.intt p = some r) : denote r = denote p ^ 2 := by
+  rw [gen_fast_square_eq_model] at h
+  exact fast_square_spec root hT p r h
+example : TransformSpec exampleTransform examplePts := exampleTransform_spec
+
+section transfer
+variable {K : Type} [Field K] (root : Nat → Option K)
+local notation "FK" => FieldOps.ofField K root
+open Polynomial
+
+/-- **`scalar_mul_spec`, `scale_spec`, `shift_spec`, `fast_multiply_spec` for the regenerated code** -/
+theorem gen_products_transfer {T : Transform K} {pts : Nat → Nat → K} (hT : TransformSpec T pts)
+    (p a b r : List K) (s : K) (n : Nat)
+    (h : TF.Gen.Poly.fast_multiply FK FK FK (FK).mul T.ntt T.ntt T.intt a b = some r) :
+    denote (TF.Gen.Poly.scalar_mul FK (FK).mul p s) = denote p * C s ∧
+    denote (TF.Gen.Poly.scalar_mul_mut FK (FK).mul p s) = denote p * C s ∧
+    denote (TF.Gen.Poly.scale FK (FK).one (FK).mul (FK).mul p s) = (denote p).comp (C s * X) ∧
+    denote (TF.Gen.Poly.shift_coefficients FK p n) = X ^ n * denote p ∧
+    denote r = denote a * denote b := by
+  rw [gen_fast_multiply_eq_model] at h
+  rw [gen_scale_eq_model]
+  exact ⟨scalar_mul_spec root p s, scalar_mul_spec root p s, scale_spec root p s, shift_spec root p n,
+    fast_multiply_spec root hT a b r h⟩
+example : TransformSpec exampleTransform examplePts := exampleTransform_spec
+
+end transfer
 end TF.C07
